@@ -298,6 +298,26 @@ def _rstmts(body: List[ast.stmt], item: str, ind: int, unit: bool = False) -> st
 #     self.num_file_deletions += 1                          let s := { s with numDeletions := s.numDeletions + 1 }
 #     return X / None / True / False / Y.restore_file(file_name=N)
 #     `if <type guard>: raise`, logging, `msg = …`          skipped
+# Round 7 additions (FileSystem.get_file / create_folder / create_file / pre_timestep / setup_for_episode, Folder.remove_all_files):
+#     if <name parameter>: …                                if N != "" then … else …          (truthiness of a str; None is written "")
+#     X = Folder(name=N, sys_log=self.sys_log)              let X : Folder := { id := s.next, name := N } ; s.next + 1   (a fresh uuid)
+#     X = File(name=N, sim_size=…, file_type=…, folder_id=Y.uuid, folder_name=Y.name, sim_root=…, sys_log=…)
+#                                                           let X : File := { id := s.next, name := N } ; s.next + 1     (name kept: no file type given
+#                                                           or the name already carries the extension — the loader model has the general rule)
+#     X = self.create_folder(N)                             let r := fsCreateFolder s N ; s := r.1 ; X := r.2            (the TRANSLATED method)
+#     X = self.get_file(A, B)                               let X := fsGetFile s A B false                               (the TRANSLATED method)
+#     Y.<attr> where Y may be None                          match Y with | none => RAISE | some Y => …                   (AttributeError)
+#     Y.add_file(X, force=force)                            RAISE when folderAddFile Y X force (the TRANSLATED Folder.add_file) raises, else
+#                                                           let s := updFolder s Y.id (fun g => (folderAddFile g X force).getD g)
+#     if self._default_folder_restore_duration is not None: Y.restore_duration = self._default_folder_restore_duration
+#                                                           match s.defaultRestore with | some d => Y := { Y with restoreDuration := d } and, Y being
+#                                                           STORED in self.folders already (one object), the entry is replaced too | none => …
+#     if self._default_folder_scan_duration is not None: Y.scan_duration = …      skipped (ledger: scan duration is not structural)
+#     self.num_file_creations += 1 / = 0, self.num_file_deletions = 0
+#     super().<same method>(…)                              skipped; emit() checks that SimComponent's method body is `pass`
+#     for X in self.folders.values(): X.pre_timestep(timestep)                    skipped; emit() checks Folder/File.pre_timestep are inert
+#     an `if` whose branches are empty once logging is dropped and whose test is a plain name   skipped
+#     return X (folder / file variable)                     (s, X) / (s, some X);  RAISE = (s, none): the state AT the raise is kept
 def _lkw(call: ast.Call, name: str, pos: int):
     for k in call.keywords:
         if k.arg == name:
@@ -305,19 +325,107 @@ def _lkw(call: ast.Call, name: str, pos: int):
     return call.args[pos] if pos < len(call.args) else None
 
 
+def _name_arg(n: ast.AST, env: dict) -> str:
+    """A name argument: a parameter / local of kind name, `<folder or file variable>.name`, or a string literal."""
+    if isinstance(n, ast.Constant) and isinstance(n.value, str):
+        return json.dumps(n.value)
+    if isinstance(n, ast.Name) and (env.get(n.id) in ("name", None)) and not n.id.startswith("@"):
+        return n.id
+    if isinstance(n, ast.Attribute) and n.attr == "name" and isinstance(n.value, ast.Name) and env.get(n.value.id) in ("folder", "file"):
+        return f"{n.value.id}.name"
+    raise Unsupported("name argument " + (_u(n) if n is not None else "<missing>"))
+
+
+def _incl(incl, env: dict) -> str:
+    if incl is None:
+        return "false"
+    if isinstance(incl, ast.Constant) and isinstance(incl.value, bool):
+        return "true" if incl.value else "false"
+    if isinstance(incl, ast.Name) and env.get(incl.id) == "bool":
+        return incl.id
+    raise Unsupported("include_deleted argument " + _u(incl))
+
+
+LEDGER_IFS = ("if self._default_folder_scan_duration is not None:\n    folder.scan_duration = self._default_folder_scan_duration",)
+
+
+def _all_inert(body: List[ast.stmt], env: dict) -> bool:
+    return all(_rskip(b) or isinstance(b, ast.Pass) or _inert(b, env) for b in body)
+
+
+def _inert(st: ast.stmt, env: dict) -> bool:
+    """Statements without structural effect (each shape is exact)."""
+    if isinstance(st, ast.Pass):
+        return True
+    if isinstance(st, ast.If):
+        if _u(st) in LEDGER_IFS:
+            return True
+        t = st.test.operand if isinstance(st.test, ast.UnaryOp) and isinstance(st.test.op, ast.Not) else st.test
+        return isinstance(t, ast.Name) and _all_inert(st.body, env) and _all_inert(st.orelse, env)
+    if isinstance(st, ast.Expr) and isinstance(st.value, ast.Call) and isinstance(st.value.func, ast.Attribute):
+        fn = st.value.func
+        if _u(fn.value) == "super()" and fn.attr == env.get("@method") and fn.attr in SUPER_PASS:
+            return True
+    if (isinstance(st, ast.For) and not st.orelse and isinstance(st.target, ast.Name) and len(st.body) == 1
+            and _u(st.iter) in ("self.folders.values()", "self.files.values()")
+            and _u(st.body[0]) == f"{st.target.id}.pre_timestep(timestep)" and env.get("@method") == "pre_timestep"):
+        return True
+    return False
+
+
+SUPER_PASS = ("pre_timestep", "setup_for_episode")   # emit() checks SimComponent.<these> are `pass`
+INERT_ATTRS = {"Folder.pre_timestep": {"_scanned_this_step"}, "File.pre_timestep": {"num_access"}}
+
+
+def _check_inert_methods() -> None:
+    """SimComponent.pre_timestep / setup_for_episode are `pass`; FileSystemItemABC overrides neither; Folder.pre_timestep and
+    File.pre_timestep only call super, assign constants to non-structural attributes of self and pass the call down to the live files."""
+    from harness.extract.filesystem import FILE, ITEM
+    core = class_def(parse("simulator/core.py"), "SimComponent")
+    for m in SUPER_PASS:
+        b = [x for x in find_method(core, m).body if not (isinstance(x, ast.Expr) and isinstance(x.value, ast.Constant))]
+        if not (len(b) == 1 and isinstance(b[0], ast.Pass)):
+            raise Unsupported(f"SimComponent.{m} is not `pass`")
+    item = class_def(parse(ITEM), "FileSystemItemABC")
+    if any(isinstance(n, ast.FunctionDef) and n.name in SUPER_PASS for n in item.body):
+        raise Unsupported("FileSystemItemABC overrides pre_timestep / setup_for_episode")
+    for key, rel, cn in (("Folder.pre_timestep", FOLDER, "Folder"), ("File.pre_timestep", FILE, "File")):
+        fn = find_method(class_def(parse(rel), cn), "pre_timestep")
+        if [a.arg for a in fn.args.args] != ["self", "timestep"]:
+            raise Unsupported("signature of " + key)
+        for st in fn.body:
+            if _rskip(st) or _inert(st, {"@method": "pre_timestep"}):
+                continue
+            if (isinstance(st, ast.Assign) and len(st.targets) == 1 and isinstance(st.targets[0], ast.Attribute) and _u(st.targets[0].value) == "self"
+                    and st.targets[0].attr in INERT_ATTRS[key] and isinstance(st.value, ast.Constant)):
+                continue
+            raise Unsupported(f"{key}: statement with a possible structural effect: " + _u(st)[:70])
+
+
 def _lstmts(body: List[ast.stmt], kind: str, res: str, env: dict, ind: int) -> str:
     """kind: "folder" (the value is `g`) or "fs" (the value is `s`); res: "optfile" | "optfolder" | "bool" | "unit"."""
     pad = "  " * ind
     V = "g" if kind == "folder" else "s"
-    body = [st for st in body if not _rskip(st)]
+    body = [st for st in body if not (_rskip(st) or _inert(st, env))]
 
     def ret(val: str) -> str:
         return pad + (val if res in ("optfile", "optfolder") else f"({V}, {val})")
     if not body:
         if res == "unit":
             return pad + V
+        if res.startswith("opt"):
+            return pad + "none"            # a method that may answer None falls off the end
         raise Unsupported("falls off the end")
     st, rest = body[0], body[1:]
+    # an attribute of a variable that may be None: AttributeError
+    derefs = sorted({n.value.id for n in ast.walk(st.test if isinstance(st, ast.If) else (st.iter if isinstance(st, ast.For) else st))
+                     if isinstance(n, ast.Attribute) and isinstance(n.value, ast.Name) and env.get(n.value.id) in ("optfile", "optfolder")})
+    if derefs:
+        if res != "file!":
+            raise Unsupported("attribute of a value that may be None: " + _u(st)[:60])
+        x = derefs[0]
+        return (pad + f"match {x} with\n" + pad + f"| none => ({V}, none)\n" + pad + f"| some {x} =>\n"
+                + _lstmts(body, kind, res, dict(env, **{x: env[x][3:]}), ind + 1))
     if isinstance(st, ast.Return):
         v = st.value
         if v is None or (isinstance(v, ast.Constant) and v.value is None):
@@ -326,6 +434,13 @@ def _lstmts(body: List[ast.stmt], kind: str, res: str, env: dict, ind: int) -> s
             return ret("true" if v.value else "false")
         if isinstance(v, ast.Name) and res.startswith("opt") and env.get(v.id) in ("file", "folder"):
             return ret(f"some {v.id}")
+        if isinstance(v, ast.Name) and res == "folder" and env.get(v.id) == "folder":
+            return pad + f"(s, {v.id})"
+        if isinstance(v, ast.Name) and res == "file!" and env.get(v.id) == "file":
+            return pad + f"(s, some {v.id})"
+        if (res == "optfile" and isinstance(v, ast.Call) and isinstance(v.func, ast.Attribute) and v.func.attr == "get_file"
+                and isinstance(v.func.value, ast.Name) and env.get(v.func.value.id) == "folder"):
+            return pad + f"{v.func.value.id}.getFile {_name_arg(_lkw(v, 'file_name', 0), env)} {_incl(_lkw(v, 'include_deleted', 1), env)}"
         if (kind == "fs" and res == "bool" and isinstance(v, ast.Call) and isinstance(v.func, ast.Attribute) and v.func.attr == "restore_file"
                 and isinstance(v.func.value, ast.Name) and env.get(v.func.value.id) == "folder"):
             y, n = v.func.value.id, _lkw(v, "file_name", 0)
@@ -366,9 +481,27 @@ def _lstmts(body: List[ast.stmt], kind: str, res: str, env: dict, ind: int) -> s
             none_b, some_b = (list(st.body), list(st.orelse)) if isinstance(t.ops[0], ast.Is) else (list(st.orelse), list(st.body))
             return (pad + f"match {x} with\n" + pad + f"| some {x} =>\n" + _lstmts(some_b + rest, kind, res, dict(env, **{x: env[x][3:]}), ind + 1)
                     + "\n" + pad + "| none =>\n" + _lstmts(none_b + rest, kind, res, env, ind + 1))
+        # `if self._default_folder_restore_duration is not None: Y.restore_duration = self._default_folder_restore_duration`
+        if _u(t) == "self._default_folder_restore_duration is not None" and kind == "fs" and not st.orelse and len(st.body) == 1:
+            a = st.body[0]
+            if not (isinstance(a, ast.Assign) and len(a.targets) == 1 and isinstance(a.targets[0], ast.Attribute)
+                    and a.targets[0].attr == "restore_duration" and isinstance(a.targets[0].value, ast.Name)
+                    and env.get(a.targets[0].value.id) == "folder" and _u(a.value) == "self._default_folder_restore_duration"):
+                raise Unsupported("under the default restore duration: " + _u(a))
+            y = a.targets[0].value.id
+            upd = f"let {y} := {{ {y} with restoreDuration := d }}\n"
+            if y in env.get("@stored", ()):
+                upd += pad + f"  let s := {{ s with folders := dictSet Folder.id s.folders {y} }}\n"
+            elif y in env.get("@fromfs", ()):
+                upd += pad + f"  let s := updFolder s {y}.id (fun g => {{ g with restoreDuration := d }})\n"
+            return (pad + "match s.defaultRestore with\n" + pad + "| some d =>\n" + pad + "  " + upd + _lstmts(rest, kind, res, env, ind + 1) + "\n"
+                    + pad + "| none =>\n" + _lstmts(rest, kind, res, env, ind + 1))
         neg = isinstance(t, ast.UnaryOp) and isinstance(t.op, ast.Not)
         core = t.operand if neg else t
         yes, no = (list(st.orelse), list(st.body)) if neg else (list(st.body), list(st.orelse))
+        if isinstance(core, ast.Name) and env.get(core.id) == "name":
+            return (pad + f"if {core.id} != \"\" then\n" + _lstmts(yes + rest, kind, res, env, ind + 1) + "\n" + pad + "else\n"
+                    + _lstmts(no + rest, kind, res, env, ind + 1))
         if isinstance(core, ast.Name) and env.get(core.id) == "bool":
             return (pad + f"if {core.id} then\n" + _lstmts(yes + rest, kind, res, env, ind + 1) + "\n" + pad + "else\n"
                     + _lstmts(no + rest, kind, res, env, ind + 1))
@@ -386,19 +519,54 @@ def _lstmts(body: List[ast.stmt], kind: str, res: str, env: dict, ind: int) -> s
     if isinstance(st, ast.Assign) and len(st.targets) == 1 and isinstance(st.targets[0], ast.Name) and isinstance(st.value, ast.Call):
         x, c = st.targets[0].id, st.value
         f = _u(c.func)
+        if kind == "fs" and f == "Folder":
+            kws = {k.arg: k.value for k in c.keywords}
+            if c.args or set(kws) != {"name", "sys_log"} or _u(kws["sys_log"]) != "self.sys_log":
+                raise Unsupported("Folder constructor " + _u(c))
+            e2 = dict(env, **{x: "folder"})
+            e2["@stored"] = tuple(v for v in env.get("@stored", ()) if v != x)
+            e2["@fromfs"] = tuple(v for v in env.get("@fromfs", ()) if v != x)
+            return (pad + f"let {x} : Folder := {{ id := s.next, name := {_name_arg(kws['name'], env)} }}\n"
+                    + pad + "let s := { s with next := s.next + 1 }\n" + _lstmts(rest, kind, res, e2, ind))
+        if kind == "fs" and f == "File":
+            kws = {k.arg: k.value for k in c.keywords}
+            if c.args or set(kws) != {"name", "sim_size", "file_type", "folder_id", "folder_name", "sim_root", "sys_log"}:
+                raise Unsupported("File constructor " + _u(c))
+            y = kws["folder_id"]
+            if not (isinstance(y, ast.Attribute) and y.attr == "uuid" and isinstance(y.value, ast.Name) and env.get(y.value.id) == "folder"
+                    and _u(kws["folder_name"]) == f"{y.value.id}.name"):
+                raise Unsupported("File constructor: owner " + _u(c))
+            return (pad + f"let {x} : File := {{ id := s.next, name := {_name_arg(kws['name'], env)} }}\n"
+                    + pad + "let s := { s with next := s.next + 1 }\n" + _lstmts(rest, kind, res, dict(env, **{x: "file"}), ind))
+        if kind == "fs" and f == "self.create_folder":
+            n = _lkw(c, "folder_name", 0)
+            e2 = dict(env, **{x: "folder"})
+            e2["@fromfs"] = tuple(env.get("@fromfs", ())) + (x,)
+            return (pad + f"let r := fsCreateFolder s {_name_arg(n, env)}\n" + pad + "let s := r.1\n" + pad + f"let {x} := r.2\n"
+                    + _lstmts(rest, kind, res, e2, ind))
+        if kind == "fs" and f == "self.get_file":
+            a, b, i = _lkw(c, "folder_name", 0), _lkw(c, "file_name", 1), _lkw(c, "include_deleted", 2)
+            return (pad + f"let {x} := fsGetFile s {_name_arg(a, env)} {_name_arg(b, env)} {_incl(i, env)}\n"
+                    + _lstmts(rest, kind, res, dict(env, **{x: "optfile"}), ind))
         incl = _lkw(c, "include_deleted", 1)
-        inc = "false" if incl is None else ("true" if (isinstance(incl, ast.Constant) and incl.value) else None)
-        if inc is None:
-            raise Unsupported("include_deleted argument " + _u(c))
+        inc = _incl(incl, env)
         if kind == "fs" and f == "self.get_folder":
             n = _lkw(c, "folder_name", 0)
-            return pad + f"let {x} := getFolder s {_u(n)} {inc}\n" + _lstmts(rest, kind, res, dict(env, **{x: "optfolder"}), ind)
+            e2 = dict(env, **{x: "optfolder"})
+            e2["@fromfs"] = tuple(env.get("@fromfs", ())) + (x,)
+            return pad + f"let {x} := getFolder s {_name_arg(n, env)} {inc}\n" + _lstmts(rest, kind, res, e2, ind)
         if isinstance(c.func, ast.Attribute) and c.func.attr == "get_file" and isinstance(c.func.value, ast.Name) and env.get(c.func.value.id) == "folder":
             n = _lkw(c, "file_name", 0)
-            return pad + f"let {x} := {c.func.value.id}.getFile {_u(n)} {inc}\n" + _lstmts(rest, kind, res, dict(env, **{x: "optfile"}), ind)
+            return pad + f"let {x} := {c.func.value.id}.getFile {_name_arg(n, env)} {inc}\n" + _lstmts(rest, kind, res, dict(env, **{x: "optfile"}), ind)
         raise Unsupported("assignment " + _u(st))
     if isinstance(st, ast.AugAssign) and kind == "fs" and _u(st.target) == "self.num_file_deletions" and isinstance(st.op, ast.Add) and _u(st.value) == "1":
         return pad + "let s := { s with numDeletions := s.numDeletions + 1 }\n" + _lstmts(rest, kind, res, env, ind)
+    if isinstance(st, ast.AugAssign) and kind == "fs" and _u(st.target) == "self.num_file_creations" and isinstance(st.op, ast.Add) and _u(st.value) == "1":
+        return pad + "let s := { s with numCreations := s.numCreations + 1 }\n" + _lstmts(rest, kind, res, env, ind)
+    if (isinstance(st, ast.Assign) and kind == "fs" and len(st.targets) == 1 and _u(st.targets[0]) in ("self.num_file_creations", "self.num_file_deletions")
+            and isinstance(st.value, ast.Constant) and type(st.value.value) is int and st.value.value >= 0):
+        fld = "numCreations" if _u(st.targets[0]).endswith("creations") else "numDeletions"
+        return pad + f"let s := {{ s with {fld} := {st.value.value} }}\n" + _lstmts(rest, kind, res, env, ind)
     if isinstance(st, ast.Assign) and kind == "folder" and len(st.targets) == 1 and isinstance(st.targets[0], ast.Subscript):
         tgt = st.targets[0]
         if (_u(tgt.value) == "self.deleted_files" and isinstance(st.value, ast.Name) and _u(tgt.slice) == f"{st.value.id}.uuid"
@@ -410,7 +578,10 @@ def _lstmts(body: List[ast.stmt], kind: str, res: str, env: dict, ind: int) -> s
         tgt = st.targets[0]
         d = {"self.folders": "folders", "self.deleted_folders": "deletedFolders"}.get(_u(tgt.value))
         if d and isinstance(st.value, ast.Name) and env.get(st.value.id) == "folder" and _u(tgt.slice) == f"{st.value.id}.uuid":
-            return pad + f"let s := {{ s with {d} := dictSet Folder.id s.{d} {st.value.id} }}\n" + _lstmts(rest, kind, res, env, ind)
+            e2 = dict(env)
+            if d == "folders":
+                e2["@stored"] = tuple(env.get("@stored", ())) + (st.value.id,)
+            return pad + f"let s := {{ s with {d} := dictSet Folder.id s.{d} {st.value.id} }}\n" + _lstmts(rest, kind, res, e2, ind)
         raise Unsupported("store " + _u(st))
     if kind == "fs" and isinstance(st, ast.Expr) and isinstance(st.value, ast.Call):
         c = st.value
@@ -427,6 +598,18 @@ def _lstmts(body: List[ast.stmt], kind: str, res: str, env: dict, ind: int) -> s
                     "remove_all_files": f"{x}.removeAllFiles"}.get(c.func.attr)
             if call:
                 return pad + f"let {x} := {call}\n" + _lstmts(rest, kind, res, env, ind)
+        if (isinstance(c.func, ast.Attribute) and c.func.attr == "add_file" and isinstance(c.func.value, ast.Name) and env.get(c.func.value.id) == "folder"
+                and res == "file!"):
+            y, fa, fo_ = c.func.value.id, _lkw(c, "file", 0), _lkw(c, "force", 1)
+            if not (isinstance(fa, ast.Name) and env.get(fa.id) == "file"):
+                raise Unsupported("add_file argument " + _u(c))
+            frc = "false" if fo_ is None else (fo_.id if isinstance(fo_, ast.Name) and env.get(fo_.id) == "bool" else
+                                               ("true" if isinstance(fo_, ast.Constant) and fo_.value is True else
+                                                ("false" if isinstance(fo_, ast.Constant) and fo_.value is False else None)))
+            if frc is None:
+                raise Unsupported("add_file force " + _u(c))
+            return (pad + f"match folderAddFile {y} {fa.id} {frc} with\n" + pad + "| none => (s, none)\n" + pad + "| some _ =>\n"
+                    + pad + f"  let s := updFolder s {y}.id (fun g => (folderAddFile g {fa.id} {frc}).getD g)\n" + _lstmts(rest, kind, res, env, ind + 1))
         if f == "self._folder_request_manager.add_request":
             nm, rt = _lkw(c, "name", 0), _lkw(c, "request_type", 1)
             if (isinstance(nm, ast.Attribute) and nm.attr == "name" and env.get(_u(nm.value)) == "folder" and isinstance(rt, ast.Call)
@@ -452,13 +635,20 @@ LOOKUP_METHODS = [  # (class, method, lean name, kind, result, parameters (pytho
     ("Folder", "remove_file", "folderRemoveFile", "folder", "unit", [("file", "File", "file")]),
     ("Folder", "remove_file_by_name", "folderRemoveFileByName", "folder", "bool", [("file_name", "Name", None)]),
     ("FileSystem", "get_folder", "fsGetFolder", "fs", "optfolder", [("folder_name", "Name", None), ("include_deleted", "Bool", "bool")]),
+    ("FileSystem", "get_file", "fsGetFile", "fs", "optfile", [("folder_name", "Name", "name"), ("file_name", "Name", "name"), ("include_deleted", "Bool", "bool")]),
+    ("FileSystem", "create_folder", "fsCreateFolder", "fs", "folder", [("folder_name", "Name", "name")]),
+    ("FileSystem", "create_file", "fsCreateFile", "fs", "file!", [("file_name", "Name", "name"), ("size", None, None), ("file_type", None, None),
+                                                                   ("folder_name", "Name", "name"), ("force", "Bool", "bool")]),
+    ("FileSystem", "pre_timestep", "fsPreTimestep", "fs", "unit", [("timestep", None, None)]),
+    ("FileSystem", "setup_for_episode", "fsSetupForEpisode", "fs", "unit", [("episode", None, None)]),
     ("FileSystem", "delete_file", "fsDeleteFile", "fs", "bool", [("folder_name", "Name", None), ("file_name", "Name", None)]),
     ("FileSystem", "restore_file", "fsRestoreFile", "fs", "bool", [("folder_name", "Name", None), ("file_name", "Name", None)]),
     ("FileSystem", "restore_folder", "fsRestoreFolder", "fs", "bool", [("folder_name", "Name", "name")]),
     ("FileSystem", "delete_folder", "fsDeleteFolder", "fs", "bool", [("folder_name", "Name", "name")]),
 ]
 RESULT_TYPE = {("folder", "optfile"): "Option File", ("folder", "unit"): "Folder", ("folder", "bool"): "Folder × Bool",
-               ("fs", "optfolder"): "Option Folder", ("fs", "bool"): "State × Bool"}
+               ("fs", "optfolder"): "Option Folder", ("fs", "bool"): "State × Bool", ("fs", "optfile"): "Option File",
+               ("fs", "folder"): "State × Folder", ("fs", "file!"): "State × Option File", ("fs", "unit"): "State"}
 
 FILE_METHODS = [("restore", "fileRestore"), ("delete", "fileDelete"), ("scan", "fileScan"), ("repair", "fileRepair"),
                 ("corrupt", "fileCorrupt"), ("check_hash", "fileCheckHash")]
@@ -466,7 +656,7 @@ FOLDER_METHODS = [("restore", "folderRestore"), ("delete", "folderDelete"), ("ch
 FOLDER_UNIT_METHODS = [("_restoring_timestep", "folderRestoringTimestep")]
 TRANSLATED = (["Folder.restore_file", "Folder.add_file"] + [f"File.{m}" for m, _ in FILE_METHODS]
               + [f"Folder.{m}" for m, _ in FOLDER_METHODS] + [f"Folder.{m}" for m, _ in FOLDER_UNIT_METHODS]
-              + [f"{c}.{m}" for c, m, *_ in LOOKUP_METHODS])
+              + [f"{c}.{m}" for c, m, *_ in LOOKUP_METHODS] + list(INERT_ATTRS))
 
 
 def emit() -> str:
@@ -493,12 +683,14 @@ def emit() -> str:
               f"def {nm} (r : FolderRec) : FolderRec :=", _rstmts(list(fn.body), "g", 1, unit=True), ""]
     from harness.extract.filesystem import FS
     fsc = class_def(parse(FS), "FileSystem")
+    _check_inert_methods()
     for cn, m, nm, kind, res, params in LOOKUP_METHODS:
         fn = find_method(fo if cn == "Folder" else fsc, m)
         if [a.arg for a in fn.args.args] != ["self"] + [p for p, _, _ in params]:
             raise Unsupported(f"signature of {cn}.{m}")
         env = {p: k for p, _, k in params if k}
-        binders = " ".join(f"({p} : {t})" for p, t, _ in params)
+        env["@method"] = m
+        binders = " ".join(f"({p} : {t})" for p, t, _ in params if t)
         V = "(g : Folder)" if kind == "folder" else "(s : State)"
         R += [f"/-- `{cn}.{m}`, translated statement by statement -/",
               f"def {nm} {V} {binders} : {RESULT_TYPE[(kind, res)]} :=", _lstmts(list(fn.body), kind, res, env, 1), ""]
